@@ -12,6 +12,7 @@ import (
 	"unsafe"
 
 	mocker "github.com/tencent/goom"
+	"github.com/tencent/goom/verifsim/model"
 	"github.com/tencent/goom/verifsim/rng"
 	"github.com/tencent/goom/verifsim/simcore"
 	"github.com/tencent/goom/verifsim/simenv"
@@ -37,6 +38,7 @@ type gvar struct {
 	builder int // builder that mocks it (-1 none); one builder per variable and history
 	dropped bool
 	stub    map[int]bool // methods whose current epoch is a stub (a second bare Return is not generated)
+	clauses map[int]int  // When clauses configured per method in the current epoch
 }
 
 type gm struct{ v map[vkey]*gvar }
@@ -50,30 +52,47 @@ func (m *gm) g(k vkey) *gvar {
 
 func (m *gm) step(op world.Op) bool {
 	switch op.K {
-	case "iapply", "ireturn":
+	case "iapply", "ireturn", "ireturns", "iwhen":
 		if op.T < 0 || op.T >= len(ifc.Ifaces) || op.N < 0 || op.N > 2 || op.F < 0 || op.F >= len(ifc.Ifaces[op.T].Methods) {
 			return false
 		}
-		if op.K == "ireturn" && ifc.Ifaces[op.T].Methods[op.F].Typ.NumOut() == 0 {
+		if op.K != "iapply" && ifc.Ifaces[op.T].Methods[op.F].Typ.NumOut() == 0 {
+			return false
+		}
+		if op.K == "iwhen" && !simpleMethod(ifc.Ifaces[op.T].Methods[op.F]) {
 			return false
 		}
 		g := m.g(vkey{op.T, op.N})
 		if g.dropped || (g.builder != -1 && g.builder != op.B) {
 			return false
 		}
-		if op.K == "ireturn" {
+		switch op.K {
+		case "ireturn", "ireturns":
 			if g.stub[op.F] {
-				return false
+				return false // default first, and only once per stub epoch
 			}
 			g.stub[op.F] = true
-		} else {
+		case "iwhen":
+			if g.clauses == nil {
+				g.clauses = map[int]int{}
+			}
+			if g.clauses[op.F] >= 2 {
+				return false
+			}
+			g.clauses[op.F]++
+			g.stub[op.F] = true
+		default:
 			g.stub[op.F] = false
+			if g.clauses != nil {
+				g.clauses[op.F] = 0
+			}
 		}
 		g.builder = op.B
 	case "reset":
 		for _, g := range m.v {
 			if g.builder == op.B && !g.dropped {
 				g.stub = map[int]bool{}
+				g.clauses = nil
 			}
 		}
 	case "dropref":
@@ -92,6 +111,21 @@ func (m *gm) step(op world.Op) bool {
 	case "gc", "checkvars":
 	default:
 		return false
+	}
+	return true
+}
+
+// simpleMethod: every parameter (after the context) is a plain comparable scalar or string.
+func simpleMethod(m *ifc.Method) bool {
+	if m.Typ.NumIn() < 2 {
+		return false
+	}
+	for i := 1; i < m.Typ.NumIn(); i++ {
+		switch m.Typ.In(i).Kind() {
+		case reflect.Int, reflect.String, reflect.Bool, reflect.Float64:
+		default:
+			return false
+		}
 	}
 	return true
 }
@@ -138,7 +172,7 @@ func (W) Gen(prop string, seed uint64, tier string) *world.Plan {
 		}
 		nm := len(ifc.Ifaces[k.t].Methods)
 		var op world.Op
-		switch r.Pick(26, 14, 22, 12, 5, 4, 9, 8) {
+		switch r.Pick(26, 14, 22, 12, 5, 4, 9, 8, 7, 9) {
 		case 0:
 			op = world.Op{K: "iapply", B: b, T: k.t, N: k.n, F: r.Intn(nm), V: r.U64()}
 		case 1:
@@ -155,6 +189,10 @@ func (W) Gen(prop string, seed uint64, tier string) *world.Plan {
 			op = world.Op{K: "gc"}
 		case 7:
 			op = world.Op{K: "checkvars"}
+		case 8:
+			op = world.Op{K: "ireturns", B: b, T: k.t, N: k.n, F: r.Intn(nm), V: r.U64(), W: uint64(2 + r.Intn(3))}
+		case 9:
+			op = world.Op{K: "iwhen", B: b, T: k.t, N: k.n, F: r.Intn(nm), V: r.U64(), W: r.U64()}
 		}
 		if m.step(op) {
 			ops = append(ops, op)
@@ -168,6 +206,7 @@ type mstate struct {
 	rec     *ifc.Rec
 	results []interface{}
 	stub    bool
+	model   *model.Stub // stub semantics (default sequence, clauses); nil for Apply callbacks
 }
 
 type vstate struct {
@@ -231,7 +270,11 @@ func (x *exec) callMethod(k vkey, mi int, seed uint64) {
 	// arguments: the replacement's parameters minus the context
 	args := make([]interface{}, m.Typ.NumIn()-1)
 	for i := range args {
-		args[i] = val.Gen(r, m.Typ.In(i+1))
+		if simpleMethod(m) && r.Chance(600) {
+			args[i] = smallValue(r, m.Typ.In(i+1))
+		} else {
+			args[i] = val.Gen(r, m.Typ.In(i+1))
+		}
 	}
 	ms := s.methods[mi]
 	if ms != nil && ms.rec != nil {
@@ -250,8 +293,35 @@ func (x *exec) callMethod(k vkey, mi int, seed uint64) {
 		}
 		return
 	}
+	if pv != nil && ms.stub && ms.model != nil {
+		probe := *ms.model
+		probe.Clauses = nil
+		for _, c := range ms.model.Clauses {
+			cc := *c
+			probe.Clauses = append(probe.Clauses, &cc)
+		}
+		if s, ok := pv.(string); ok && strings.Contains(s, "no suitable condition") && probe.Call(args).Panic {
+			return // documented: no clause matches, no default
+		}
+	}
 	if pv != nil {
 		x.fail("iface/panic", "mocked %s.%s panicked: %v", vname(k), m.Name, pv)
+	}
+	if ms.stub && ms.model != nil {
+		out := ms.model.Call(args)
+		if out.Panic {
+			x.fail("iface/stub-no-default", "stubbed %s.%s(%s): no clause matches and there is no default, but the call returned %s", vname(k), m.Name, val.ShowList(args), val.ShowList(got))
+		}
+		for i := range got {
+			w := out.Results[i]
+			if w == nil {
+				w = reflect.Zero(m.Typ.Out(i)).Interface()
+			}
+			if !val.Same(got[i], w, true) {
+				x.fail("iface/stub-result", "stubbed %s.%s(%s) returned %s, reference selects clause %d position %d = %s", vname(k), m.Name, val.ShowList(args), val.ShowList(got), out.Clause, out.Pos, val.ShowList(out.Results))
+			}
+		}
+		return
 	}
 	if ms.stub {
 		for i := range got {
@@ -288,6 +358,22 @@ func (x *exec) callMethod(k vkey, mi int, seed uint64) {
 	}
 }
 
+func eqLoose(a, b interface{}) bool { return val.Same(a, b, false) }
+
+// smallValue draws from a small domain so that calls hit clauses.
+func smallValue(r *rng.R, t reflect.Type) interface{} {
+	switch t.Kind() {
+	case reflect.String:
+		return []string{"a", "b", ""}[r.Intn(3)]
+	case reflect.Bool:
+		return r.Intn(2) == 0
+	case reflect.Float64:
+		return float64(r.Intn(3))
+	default:
+		return r.Intn(3)
+	}
+}
+
 func (x *exec) checkVars() {
 	var ks []vkey
 	for t := range ifc.Ifaces {
@@ -314,7 +400,7 @@ func (x *exec) checkVars() {
 
 func (x *exec) step(op world.Op) {
 	switch op.K {
-	case "iapply", "ireturn":
+	case "iapply", "ireturn", "ireturns", "iwhen":
 		k := vkey{op.T, op.N}
 		it := ifc.Ifaces[op.T]
 		m := it.Methods[op.F]
@@ -334,10 +420,56 @@ func (x *exec) step(op world.Op) {
 			x.keep = append(x.keep, cb)
 			im.Apply(cb)
 			s.methods[op.F] = &mstate{rec: rec, results: res}
-		} else {
+		} else if op.K == "ireturn" {
 			tmpl := m.Mk(&ifc.Rec{})
 			im.As(tmpl).Return(res...)
 			s.methods[op.F] = &mstate{results: res, stub: true}
+		} else if op.K == "ireturns" {
+			n := int(op.W)
+			if n < 2 {
+				n = 2
+			}
+			var seq [][]interface{}
+			var vals []interface{}
+			for i := 0; i < n; i++ {
+				rs := make([]interface{}, m.Typ.NumOut())
+				for j := range rs {
+					rs[j] = val.Gen(r, m.Typ.Out(j))
+				}
+				seq = append(seq, rs)
+				if len(rs) == 1 {
+					vals = append(vals, rs[0])
+				} else {
+					vals = append(vals, rs)
+				}
+			}
+			tmpl := m.Mk(&ifc.Rec{})
+			im.As(tmpl).Returns(vals...)
+			s.methods[op.F] = &mstate{stub: true, model: &model.Stub{Default: seq, HasResults: true, Eq: eqLoose}}
+			x.env.Probe("interface_result_sequence")
+		} else { // iwhen
+			cargs := make([]interface{}, m.Typ.NumIn()-1)
+			ar := rng.Derive(op.W, 10)
+			for i := range cargs {
+				cargs[i] = smallValue(ar, m.Typ.In(i+1))
+			}
+			tmpl := m.Mk(&ifc.Rec{})
+			im.As(tmpl).When(cargs...).Return(res...)
+			ms := s.methods[op.F]
+			if ms == nil || !ms.stub || ms.model == nil {
+				var def [][]interface{}
+				if ms != nil && ms.stub && ms.model == nil {
+					def = [][]interface{}{ms.results} // an earlier plain Return is the default
+				}
+				ms = &mstate{stub: true, model: &model.Stub{Default: def, HasResults: true, Eq: eqLoose}}
+				s.methods[op.F] = ms
+			}
+			alt := make([]model.ArgMatcher, len(cargs))
+			for i, a := range cargs {
+				alt[i] = model.ArgMatcher{Values: []interface{}{a}}
+			}
+			ms.model.Clauses = append(ms.model.Clauses, &model.Clause{Alts: [][]model.ArgMatcher{alt}, Results: [][]interface{}{res}})
+			x.env.Probe("interface_when_clause")
 		}
 		s.mocked, s.builder = true, op.B
 		x.env.T("%s %s.%s", op.K, vname(k), m.Name)
@@ -442,7 +574,7 @@ func (W) Exec(p *world.Plan, env *world.Env) {
 	ifc.ResetVars()
 	nm := 0
 	for _, op := range p.Tasks[0].Ops {
-		if op.K == "iapply" || op.K == "ireturn" {
+		if op.K == "iapply" || op.K == "ireturn" || op.K == "ireturns" || op.K == "iwhen" {
 			nm++
 		}
 	}
